@@ -171,8 +171,9 @@ pub fn functional<T, N: ArrayLength, const R: usize>() {
     let n = N::USIZE;
     let a = tr_array::<N>(0);
     never(0, n);
-    let op = any_upto(4);
+    let op = any_upto(7);
     kani_cover!(op == 4);
+    kani_cover!(op == 7);
     match op {
         0 => {
             let m: GenericArray<Tr, N> = a.map(|x| { alive(&x); Tr::new(x.id as usize + CLONE_OFFSET) });
@@ -202,6 +203,29 @@ pub fn functional<T, N: ArrayLength, const R: usize>() {
             once(0, n);
             never(CLONE_OFFSET, CLONE_OFFSET + n);
             drop(c);
+            once(CLONE_OFFSET, CLONE_OFFSET + n);
+            return;
+        }
+        5 => {
+            // mixed element kinds: only ONE side has drop glue (`needs_drop` shortcuts must look at the right type)
+            let p: GenericArray<u32, N> = GenericArray::generate(|i| i as u32);
+            let z: GenericArray<Tr, N> = p.zip(a, |x, y| { alive(&y); assert!(y.id as u32 == x); y });
+            never(0, n);
+            drop(z);
+        }
+        6 => {
+            let p: GenericArray<u32, N> = GenericArray::generate(|i| i as u32);
+            let z: GenericArray<u32, N> = a.zip(p, |x, y| { alive(&x); assert!(x.id as u32 == y); y });
+            once(0, n);
+            drop(z);
+        }
+        7 => {
+            // tracked -> plain and plain -> tracked maps
+            let m: GenericArray<u32, N> = a.map(|x| { alive(&x); x.id as u32 });
+            once(0, n);
+            let t: GenericArray<Tr, N> = m.map(|v| Tr::new(v as usize + CLONE_OFFSET));
+            never(CLONE_OFFSET, CLONE_OFFSET + n);
+            drop(t);
             once(CLONE_OFFSET, CLONE_OFFSET + n);
             return;
         }
